@@ -87,3 +87,24 @@ def streams(tier, rng):
         L.make_stream("c04-skip-1ns-floor", "c04", floor, hist=L.histogram(floor),
                       describe="skip_ext_time with rounds faster than 1 ns"),
     ]
+
+
+MANIFEST = {
+    "text": "Coq theorems about the same model of bench_loop_threaded, for EVERY history of clock readings and every (n, s, min, max, skip, T), "
+            "min > max, zero and u128-sized budgets included: the number of rounds run is the least k with not continue_after k, where "
+            "continue_after k = elapsed_after k < max /\\ (counted_after k < n \\/ elapsed_after k < min) is defined declaratively from the "
+            "timestamps (C04_rounds_least, C04_continue_meaning); max_time has priority (C04_max_has_priority); the loop's elapsed_picos equals "
+            "the declarative elapsed time: latest end of the newest round minus the initial start, or under skip_ext_time the saturating sum "
+            "of max(slowest thread's timed section, 1 ns) (C04_elapsed_def); the model never panics on well-formed histories while tuned sizes "
+            "stay below 2^31 (C04_loop_total); the boolean specification holds of the model for every history (C04_model_sb). Comparison "
+            "operators and the 1 ns floor are generated from the source (proof obligations C04_loop_consts).",
+    "note": "All theorems full strength, closed under the global context. Time is the per-thread virtual timestamp counter behind "
+            "TscTimestamp::start/end (hook H2); the Instant path and real TSC reads are not exercised; Timestamp->picoseconds reuses C11's model. "
+            "Trusted: Coq kernel, extraction, OCaml driver, hooks, hx-loop, the model as validated by boundary-aimed correspondence streams.",
+    "technique": "machine-checked proof in Coq (invariant over fold of rounds; declarative least-k rule) + history-driven differential "
+                 "correspondence with budgets placed at/one tick below/above round boundaries + extracted specification on implementation outputs",
+}
+
+
+def shrink(item, rerun_case):
+    return L.shrink_item(item, rerun_case)
